@@ -476,9 +476,16 @@ func init() {
 	reg("(*sync.RWMutex).RLock", func(ex *Exec, g *G, fn *ssa.Function, args []Value, done func(Value)) {
 		m := ex.mutex(args[0])
 		g.pending = &VisOp{Kind: "RLock", Simple: true, Obj: m,
-			Enabled: func() bool { return !m.locked },
+			// Go's RWMutex blocks new readers once a writer waits. That only changes behaviour for a goroutine that
+			// already holds a read lock (recursive read locking, which sync prohibits): it deadlocks with the writer.
+			// A recursive RLock is therefore disabled while another goroutine's next step is Lock on the same mutex.
+			Enabled: func() bool { return !m.locked && !(m.rhold[g.id] > 0 && ex.writerWaits(m, g)) },
 			Fire: func() {
 				m.readers++
+				if m.rhold == nil {
+					m.rhold = map[int]int{}
+				}
+				m.rhold[g.id]++
 				if ex.race != nil {
 					ex.race.acquire(g, m)
 				}
@@ -493,6 +500,9 @@ func init() {
 				return
 			}
 			m.readers--
+			if m.rhold[g.id] > 0 {
+				m.rhold[g.id]--
+			}
 			if ex.race != nil {
 				ex.race.releaseRead(g, m)
 			}
@@ -988,6 +998,16 @@ func ctxTreeIDs(c *CtxObj) []int {
 		ids = append(ids, ctxTreeIDs(ch)...)
 	}
 	return ids
+}
+
+// writerWaits: some other goroutine's next step is Lock on m.
+func (ex *Exec) writerWaits(m *mutexState, self *G) bool {
+	for _, o := range ex.gs {
+		if o != self && !o.done && o.pending != nil && o.pending.Kind == "Lock" && o.pending.Obj == any(m) {
+			return true
+		}
+	}
+	return false
 }
 
 func (ex *Exec) mutex(v Value) *mutexState {
